@@ -1,7 +1,7 @@
 (* C06 requests: 600..609.  600 is the full SCC reader model and is shared by C05 C15 C16. *)
 From Coq Require Import List ZArith QArith Bool.
 From PV Require Import lib.Sx lib.Str lib.Result.
-From PV Require Import model.SccTime model.SccStash model.SccDecoder model.SccPopon spec.SpecSccTime extract.OrCommon.
+From PV Require Import model.SccTime model.SccStash model.SccDecoder model.SccPopon spec.SpecSccTime spec.SpecSccTime2 extract.OrCommon.
 Import ListNotations.
 Open Scope Z_scope.
 
@@ -68,7 +68,7 @@ Definition dispatch (code : Z) (arg : sx) : option sx :=
                      | Some off =>
                          match sx_listof (sx_ev off) evs, sx_result (sx_listof sx_span) obs with
                          | Some evs, Some obs =>
-                             SL [of_bool (ok_c06 evs obs);
+                             SL [of_bool (ok_c06_gap evs obs);
                                  of_result (of_list of_span) (expected_with thr_hi evs);
                                  of_list of_q (map ev_time evs)]
                          | _, _ => bad
